@@ -60,7 +60,12 @@ def verify_all(plan, repo, only=None, z3_ms=None):
         outs.append(out)
     for lem in plan.get("lemmas", []):
         t0 = time.time()
-        obligs = lem(reg, repo)
+        try:
+            obligs = lem(reg, repo)
+        except (Unsupported, OSError, SyntaxError) as e:
+            outs.append(dict(function="lemma:" + lem.__name__, file="(contracts)", status="unsupported", unsupported=str(e), results=[],
+                             canaries=[], assumptions=[], n_paths=0, lifted_asserts=[], fragment=None, wall_s=0))
+            continue
         res = solve.discharge(obligs)
         for r, o in zip(res, obligs):
             r["_oblig"] = o
@@ -124,6 +129,7 @@ def run_deductive(pid, plan, repo, tier, seed, replay_dir):
     functions = []
     assumptions = set()
     refuted_names = []
+    n_dec = {}
     # ---- later stages for what z3 / cvc5 left open: (3) sound quantifier-free instantiation, (4) one retry with another seed and three
     # times the budget.  The retries run in parallel; when many obligations are open at once (a changed function, not a busy machine)
     # the retry stage is skipped: it only exists to absorb load-dependent timeouts.
@@ -178,7 +184,10 @@ def run_deductive(pid, plan, repo, tier, seed, replay_dir):
             elif r["status"] == "refuted":
                 refuted_names.append(r["name"])
                 ob = r["_oblig"]
-                dec = solve.model_for(ob)
+                # counter-models are decoded (in-process re-solve, up to 20 s each) for the first three refuted obligations of a function only:
+                # a changed function can refute dozens at once, and one VIOLATION line per function is kept anyway
+                n_dec[o["function"]] = n_dec.get(o["function"], 0) + 1
+                dec = solve.model_for(ob) if n_dec[o["function"]] <= 3 else None
                 inputs = dec[0] if dec else None
                 nat = native_replay(o["function"], inputs, repo) if inputs is not None else {"status": "no-model"}
                 rp = os.path.join(replay_dir, "%s-%s.json" % (pid, _safe(r["name"])))
